@@ -158,7 +158,24 @@ def expected_equal_spaces(a, b):
 
 AXIOMS = ["zeros-identity", "add-commutative", "add-associative", "add-equals-mut_add", "scalar-distributes", "inner-symmetric",
           "inner-bilinear", "inner-positive-orthonormal", "covector-involution", "basis-complete", "size", "mut_add-none-fresh",
-          "zeros-ones-structure"]
+          "zeros-ones-structure", "dict-key-order"]
+
+
+def reorder(v):
+    """The same value with every dict's insertion order reversed (an equal dict as far as Python is concerned)."""
+    if isinstance(v, dict):
+        return {k: reorder(v[k]) for k in reversed(list(v))}
+    if isinstance(v, (tuple, list)):
+        return type(v)(reorder(x) for x in v)
+    return v
+
+
+def keyed(v):
+    if isinstance(v, dict):
+        return {k: keyed(v[k]) for k in sorted(v)}
+    if isinstance(v, (tuple, list)):
+        return type(v)(keyed(x) for x in v)
+    return v
 
 
 def axioms_factory(quick, seed):
@@ -280,6 +297,21 @@ def axioms_factory(quick, seed):
                     for a, b in zip(tleaves(got), tleaves(x)):
                         if isinstance(a, onp.ndarray) and isinstance(b, onp.ndarray) and b.size and onp.shares_memory(a, b):
                             fail("mut_add(None, x) shares memory with x")
+            elif ax == "dict-key-order":
+                # vectors are matched by KEY: an operand whose dicts were written in another order is the same vector
+                for x, y in itertools.product(vecs[-3:], repeat=2):
+                    nchecks += 1
+                    yr = reorder(y)
+                    if not close(keyed(vs.add(x, yr)), keyed(vs.add(x, y)), 0) or not close(keyed(vs.add(yr, x)), keyed(vs.add(y, x)), 0):
+                        fail("add depends on dict insertion order", vs.add(x, yr), vs.add(x, y))
+                    if not close(keyed(vs.mut_add(vs.mut_add(None, x), yr)), keyed(vs.add(x, y)), 0):
+                        fail("mut_add depends on dict insertion order", vs.mut_add(vs.mut_add(None, x), yr), vs.add(x, y))
+                    if abs(vs.inner_prod(x, yr) - vs.inner_prod(x, y)) > tol * (1 + abs(vs.inner_prod(x, y))):
+                        fail("inner_prod depends on dict insertion order", vs.inner_prod(x, yr), vs.inner_prod(x, y))
+                    if not close(keyed(vs.scalar_mul(yr, 1.5)), keyed(vs.scalar_mul(y, 1.5)), 0) or not close(keyed(vs.covector(yr)), keyed(vs.covector(y)), 0):
+                        fail("scalar_mul / covector depend on dict insertion order", vs.scalar_mul(yr, 1.5), vs.scalar_mul(y, 1.5))
+                    if not (vspace(yr) == vs):
+                        fail("vspace of the reordered value differs", vspace(yr), vs)
             elif ax == "zeros-ones-structure":
                 nchecks += 1
                 for w in (vs.zeros(), vs.ones()):
